@@ -13,10 +13,12 @@ from mc.runner import Collector, scratch_root
 
 ID = "C09"
 LEVEL = "exploration"
+REQUIRED_CLASSES = ["code-ok", "reject-ok", "route-ok"]
 RULE = ("units partition: (a) all grids gx,gy,gz <= N (N=8 quick, 12 "
         "thorough) x 3 spellings (chunk 1; chunk 3 exact; chunk 64 ragged) x "
         "ALL positions; (b) large-grid lattice, edges from {1,2,3,2^k-1,2^k,"
-        "2^k+1: k in 5,10,20,21} with total bits <= 64 x boundary positions; "
+        "2^k+1: k in 5,21 (quick) / 5,10,20,21 (thorough)} with total bits "
+        "<= 64 x boundary positions; "
         "(c) rejection probes (one past, two past, negative, off-lattice, "
         "non-integer) on every grid of (a) with edge <= 4 and of (b); (d) "
         "routing: identifier lattice x (preshift,minishard,shard) triples. "
@@ -51,8 +53,10 @@ def _edges(tier="thorough"):
 
 
 def _triples(tier):
-    r = range(5) if tier == "quick" else range(9)
-    t = list(itertools.product(r, r, r))
+    if tier == "quick":
+        t = list(itertools.product(range(4), range(4), range(10)))
+    else:
+        t = list(itertools.product(range(9), range(9), range(13)))
     return t + [s for s in SPECIAL_TRIPLES if s not in t]
 
 
